@@ -320,6 +320,8 @@ def _run_api(op, f):
     iv = {} if interval is None else {'interval': interval}
     if op == 'reconcile':
         return trains_out(G(lambda: spk.spikes.reconcile_spike_trains(L)))
+    if op == 'reconcile_bi':            # generated-model validation only
+        return trains_out(list(G(lambda: spk.spikes.reconcile_spike_trains_bi(L[0], L[1]))))
     if op == 'train_nonempty':          # SpikeTrain methods (generated-model validation only)
         return [list(G(lambda: t.get_spikes_non_empty())) for t in L]
     if op == 'train_copy':
@@ -452,6 +454,6 @@ EXACT = {
 def exact_fields(op, nfields):
     if op in ('round_sci', 'save_load'):
         return 'float-exact'
-    if op in ('reconcile', 'filter_by_sync', 'merge', 'psth', 'time_series', 'poisson', 'train_nonempty', 'train_copy', 'train_sort'):
+    if op in ('reconcile', 'filter_by_sync', 'merge', 'psth', 'time_series', 'poisson', 'train_nonempty', 'train_copy', 'train_sort', 'reconcile_bi'):
         return tuple(range(nfields))
     return EXACT.get(op, ())
